@@ -4,6 +4,8 @@ CONSTANTS
   MaxRetrans = 3
   MaxDeliveries = 9
   Rounds = 1
+  MaxSlow = 1
+  Recheck = TRUE
   MaxOps = 40
 VIEW view
 INVARIANTS SuccessIsTrue AtMostOnceInOrder RetransIdentical Budget
